@@ -190,6 +190,10 @@ func check(c *Case) *ev.Failure {
 		stage, problem string
 		ticks          int64
 	}
+	// a fatal Go error (stack overflow, concurrent map write) kills this process without passing through recover:
+	// the driver then finds this case in the side file and reports it
+	r.InFlight("input", c, "the check process died while this input was running: the embedding host would have died with it\n"+describe(c))
+	defer r.Landed()
 	done := make(chan res, 1)
 	go func() {
 		defer func() {
@@ -346,6 +350,9 @@ var vocab = []string{":=", "=", "+=", "-=", "*=", "/=", "%=", "|=", "^=", "&=", 
 	"\u00d7", "\u201c", "\u201d", "\u00a0", "\u2192", "\u2026", "\u00e9", "\u65e5\u672c", "\u200b", "\U0001f600", "\ufeff", "\xff", "\xc3", "\u00ab", "\u2260", "\u03bb",
 	// literals that scan as one token but do not denote a value: bad escapes, surrogates, out-of-range octal and code points, empty or long characters
 	`"\400"`, `"\ud800"`, `"\q"`, `"\x"`, `"\xg1"`, `"\u12"`, `"\U00110000"`, `"\8"`, `'\400'`, `'\ud800'`, `'\q'`, `''`, `'\'`, `"\"`, `'\U00110000'`, "`", "\"a\nb\"", "\"\\", "0b2", "0o8", "1e", "1e+", "0x.p", "1_", "1__0", "9999999999999999999999", "1e999", "0.0.0", "..", "....", ":=:", `'\x'`,
+	// values that contain themselves, printed
+	"s := []any{1, 2}", "s[1] = s", "println(s)", "fmt.Println(s)", "fmt.Sprint(s)", "m := map[string]any{}", "m[\"k\"] = m", "println(m)", "type N struct { Next *N; Any any }", "n := &N{}", "n.Next = n", "n.Any = n", "println(n)",
+	"s := []any{1, 2}\ns[1] = s\nprintln(s)\n", "a := []any{0}\nb := []any{a}\na[0] = b\nprintln(a)\n",
 	// composite types in key, element and field positions (type tags are packed into a few bits per position)
 	"map[[]x]T", "map[[]int][]string", "[][]map[string][]int", "map[map[string]int]T", "map[[]println]T{nil: {}}", "[]T{{}}", "T{}", "{nil: {}}", "type T struct{}", "type T struct { m map[[]T]T }",
 	"map[func()]T{}", "[]func(T) map[T][]T{}", "make(map[[]T][]T)", "var v map[[]g][]i", "x.(T)", "[]interface{}{}", "[...]int{1}", "[3]int{}", "*T", "&x", "<-c", "chan T",
